@@ -203,6 +203,9 @@ fn par_repeat_overflow_h() {
     // only the checks that precede the strobe loop are examined (unwinding cut at 5, no
     // unwinding assertions): `count * N` must not overflow for any repeat count
     let mut pw = ParWorld::new(0, true, 0);
+    // a native replay must terminate: the 1000th pin operation fails, which ends the call
+    // (under CBMC the strobe loop is cut long before that)
+    pw.fail_at = 1000;
     let w: *mut ParWorld = &mut pw;
     let mut di = ParallelInterface::new(bus8(w), ParDc(w), ParWr(w));
     let count: u32 = kani::any();
